@@ -2,6 +2,7 @@ package props
 
 import (
 	"fmt"
+	"path/filepath"
 	"strings"
 	"testing"
 	"unicode"
@@ -290,6 +291,31 @@ func checkC16(c DocCase, r *rec.Rec) error {
 		}
 		if !nj.Equals(n, rd.opt) || !n.Equals(nj, rd.opt) {
 			return viol(rec.Violated("JSON(%s) round trip of %s gives %s, not equal under %s", rd.name, jsonText, showText(nj.Json()), rd.name))
+		}
+	}
+	// the file entry points read what the string entry points read (one case in sixteen)
+	if val.FNV64(jsonText)%16 == 0 {
+		dir, cleanup := caseDir()
+		writeFile(dir, "doc.json", jsonText)
+		writeFile(dir, "doc.yaml", ys)
+		var nf, yf jd.JsonNode
+		var ferr, yerr error
+		msg, p := jdx.Guard(func() {
+			nf, ferr = jd.ReadJsonFile(filepath.Join(dir, "doc.json"))
+			yf, yerr = jd.ReadYamlFile(filepath.Join(dir, "doc.yaml"))
+		})
+		cleanup()
+		if p {
+			return viol(rec.Violated("ReadJsonFile / ReadYamlFile panicked on %s: %s", jsonText, msg))
+		}
+		if ferr != nil || yerr != nil {
+			return viol(rec.Violated("ReadJsonFile (%v) / ReadYamlFile (%v) reject a file that holds what ReadJsonString / ReadYamlString accept: %s", ferr, yerr, jsonText))
+		}
+		if !nf.Equals(n) || !n.Equals(nf) || nf.Json() != n.Json() {
+			return viol(rec.Violated("ReadJsonFile gives %s for a file holding %s", showText(nf.Json()), jsonText))
+		}
+		if !yf.Equals(n3) || !n3.Equals(yf) || yf.Json() != n3.Json() {
+			return viol(rec.Violated("ReadYamlFile gives %s for a file holding\n%s", showText(yf.Json()), ys))
 		}
 	}
 	// the same document from an independent YAML writer
